@@ -64,6 +64,9 @@ func (s *serfNet) Listen(ctx context.Context, outch chan P2PEvent) {
 		if e, ok := event.(serf.MemberEvent); ok {
 
 			for _, member := range e.Members {
+				if len(member.Name) < 20 {
+					continue
+				}
 				nodeId := member.Name[:20]
 				select {
 				case <-ctx.Done():
